@@ -373,6 +373,8 @@ class C10(Check):
                 if rng.random() < 0.2:
                     more.append("attr V%d chain cons:%d" % (c, rng.choice([3, 40, 600, 2500])))
                 if byvalue and rng.random() < 0.5:
+                    more.append("attr V%d flt clos:%d" % (a, rng.randrange(3)))
+                if byvalue and rng.random() < 0.5:
                     # (definitions pickled by value are outside the abstract heap of the model: these graphs go
                     # through the load-and-compare layers only, like the by-value classes)
                     more.append("attr V%d gfn ghost:%d" % (c, rng.randrange(3)))
